@@ -54,6 +54,9 @@ def run(res, proofs_ok, proofs_why):
         if r["kind"] != 2 and after is not None and len(after) < 72 and r["wrt"].startswith("W:ok"):
             why.append("after the daemon started over this file and published, the file is %d bytes long: PROTOCOL.md gives the segment 72 bytes "
                        "(header + record); the record is not in the file" % len(after))
+        if why and any("syscall:24:" in str(v) for v in list(r["rust"].values()) + list(r["c"].values())):
+            why.append("(errno 24 is EMFILE: the process, held to 96 descriptors, ran out of them - opens that failed on the files before "
+                       "this one did not give back what they had acquired; the outcome depends on the opens made before, replay runs the whole corpus)")
         if why:
             bad.append({"case": F.describe(r), "why": why})
     # the same live segment: the daemon publishes a new record while the call is reading its first clock;
